@@ -94,18 +94,26 @@ func runConcCase(o *Oracle, c *ConcCase, rep *Report) {
 	if err != nil {
 		infra("open: %v", err)
 	}
-	defer idx.Close()
+	closeIdx := true
+	defer func() {
+		if closeIdx { // never unmap the file under goroutines that may still be running
+			idx.Close()
+		}
+	}()
 	wantSchema := schemaString(idx.GetSchema())
 	var mism atomic.Int64
 	var first atomic.Value
-	res := watchdog(120*time.Second, func() string {
+	deadline := time.Now().Add(4 * time.Second) // bounded work per configuration: slow machines do fewer rounds
+	var done atomic.Int64
+	res := watchdog(180*time.Second, func() string {
 		var wg sync.WaitGroup
 		for g := 0; g < c.Goroutines; g++ {
 			wg.Add(1)
 			go func(g int) {
 				defer wg.Done()
 				r := NewRng(uint64(g)*7919 + c.Data.Seed)
-				for k := 0; k < c.Rounds; k++ {
+				for k := 0; k < c.Rounds && (k < 3 || time.Now().Before(deadline)); k++ {
+					done.Add(1)
 					qi := r.Intn(len(c.Queries))
 					got := safeExecute(idx, toQuery(&c.Queries[qi]))
 					if got != want[qi] {
@@ -127,9 +135,10 @@ func runConcCase(o *Oracle, c *ConcCase, rep *Report) {
 		return "ok"
 	})
 	rep.Eval(fmt.Sprintf("%d|%v|%d|%d", c.Data.Seed, c.Preload, c.Cache, c.Goroutines), true)
-	rep.CountN("concurrent-executions", c.Goroutines*c.Rounds)
+	rep.CountN("concurrent-executions", int(done.Load()))
 	rep.Count(fmt.Sprintf("cache=%d preload=%v goroutines=%d", c.Cache, c.Preload, c.Goroutines))
 	if res != "ok" {
+		closeIdx = false
 		rep.Violate(Violation{Kind: "schedule", Signature: "C04:" + strings.SplitN(res, ":", 2)[0], What: "concurrent Execute/GetSchema: " + res, Expected: "completes", Actual: trunc(res, 500), Case: c})
 		return
 	}
@@ -198,7 +207,11 @@ func runC04(rep *Report, r *Rng, tier string) {
 		rows := d.Materialize()
 		pool := poolOf(rows)
 		small := &leafPool{}
-		for k := 0; k < 2 && k < len(pool.cols); k++ {
+		st := statsOf(rows)
+		for k := 0; k < len(pool.cols) && len(small.cols) < 2; k++ {
+			if st.distinct[pool.cols[k]] > 60 {
+				continue // group-by over thousands of values is C02's subject; here it only burns time under -race
+			}
 			vs := pool.vals[k]
 			if len(vs) > 3 {
 				vs = vs[:3]
